@@ -436,7 +436,17 @@ def rule_work_of_valid_bits_only(ctx: Ctx, rep: Report) -> None:
     rep.floor(rule, 3)
 
 
+def rule_converted_then_raw_(ctx: Ctx, rep: Report) -> None:
+    """C17.converted_then_raw: a target, a hash, a header given as hex text is the
+    value its bytes are: nothing in block/ and hashes measures the raw
+    argument after converting it (sigcommon.converted_then_raw)."""
+    from rules import sigcommon
+    sigcommon.rule_converted_then_raw(ctx, rep, "C17.converted_then_raw", ("btclib.block", "btclib.hashes", "btclib.p2p"))
+
+
 RULES = [
+    ("C17.converted_then_raw", rule_converted_then_raw_),
+
     ("C17.work_of_valid_bits_only", rule_work_of_valid_bits_only),
 
     ("C17.one_script_per_input", rule_one_script_per_input),
